@@ -68,7 +68,10 @@ std::string prop_generate(Tape & t, int size) {
             switch (t.weighted({5, 3, 3})) {
                 case 0: run = 1; break;
                 case 1: run = t.range(2, 5); break;
-                default: { int64_t to_edge = df - (made % df); run = to_edge + t.range(0, 2); break; }   // straddles the next index-chunk edge
+                default: {
+                    // straddles the next index-chunk edge: of the level-1 index (every df entries) or of the level-2 index (every df^2)
+                    int64_t unit = t.chance(1, 3) ? df * df : df;
+                    int64_t to_edge = unit - (made % unit); run = to_edge + t.range(0, 2); break; }
             }
             if (run > count - made) run = count - made;
             for (int64_t r = 0; r < run; ++r) {
@@ -121,7 +124,7 @@ CaseOutcome prop_execute(const std::string & case_json) {
 
     std::vector<int> ids = {0};
     for (auto & kv : m.sigs) ids.push_back(kv.first);
-    bool deep = false, straddle = false;
+    bool deep = false, straddle = false, straddle2 = false;
     for (int id : ids) {
         const std::vector<AnnoM> & W = (id == 0) ? m.anno0 : m.sigs[id].annos;
         int64_t off = 0; uint32_t df = 100;
@@ -135,6 +138,7 @@ CaseOutcome prop_execute(const std::string & case_json) {
         if (W.size() > (size_t) df) {
             if (W.size() > (size_t) df * df) deep = true; else if (W.size() >= 2 * (size_t) df) deep = true;
             for (size_t k = df; k < W.size(); k += df) if (W[k].ts == W[k - 1].ts) straddle = true;
+            for (size_t k = (size_t) df * df; k < W.size(); k += (size_t) df * df) if (W[k].ts == W[k - 1].ts) straddle2 = true;
         }
         oc.tags.push_back(strf("count:%s", W.empty() ? "0" : W.size() <= df ? "<=df" : W.size() <= (size_t) df * df ? "<=df^2" : ">df^2"));
         // (1) full iteration
@@ -198,6 +202,7 @@ CaseOutcome prop_execute(const std::string & case_json) {
     rd.close();
     oc.nontrivial = deep && straddle;
     if (straddle) oc.tags.push_back("run_straddles_index_chunk");
+    if (straddle2) oc.tags.push_back("run_straddles_level2_index_chunk");
     vfs::reset();
     return oc;
 }
